@@ -178,13 +178,16 @@ def string_replace_map(line, lower=False):
     rev_string_map = {}
     for item in splitquote(line, lower=lower)[0]:
         if isinstance(item, String) and not _is_simple_str(item[1:-1]):
-            key = rev_string_map.get(item)
+            # The reverse map is keyed on the kind of entry as well as on
+            # its (trimmed) text so that e.g. the string '(a+b)' and the
+            # expression (a+b) do not share a placeholder.
+            trimmed = item[1:-1]
+            key = rev_string_map.get(("string", trimmed))
             if key is None:
                 str_idx += 1
                 key = "_F2PY_STRING_CONSTANT_{0}_".format(str_idx)
-                trimmed = item[1:-1]
                 string_map[key] = trimmed
-                rev_string_map[trimmed] = key
+                rev_string_map[("string", trimmed)] = key
             items.append(item[0] + key + item[-1])
         else:
             items.append(item)
@@ -196,12 +199,12 @@ def string_replace_map(line, lower=False):
         # *without* any preceding non-word character.
         found = item.group(1)
 
-        key = rev_string_map.get(found)
+        key = rev_string_map.get(("constant", found))
         if key is None:
             const_idx += 1
             key = "F2PY_REAL_CONSTANT_{0}_".format(const_idx)
             string_map[key] = found
-            rev_string_map[found] = key
+            rev_string_map[("constant", found)] = key
             const_keys.append(key)
         newline = newline.replace(found, key)
 
@@ -209,13 +212,13 @@ def string_replace_map(line, lower=False):
     expr_keys = []
     for item in splitparen(newline):
         if isinstance(item, ParenString) and not _is_name(item[1:-1].strip()):
-            key = rev_string_map.get(item)
+            trimmed = item[1:-1].strip()
+            key = rev_string_map.get(("parens", trimmed))
             if key is None:
                 parens_idx += 1
                 key = "F2PY_EXPR_TUPLE_{0}".format(parens_idx)
-                trimmed = item[1:-1].strip()
                 string_map[key] = trimmed
-                rev_string_map[trimmed] = key
+                rev_string_map[("parens", trimmed)] = key
                 expr_keys.append(key)
             items.append(item[0] + key + item[-1])
         else:
